@@ -213,7 +213,8 @@ def run(tier: str, seed: int, replay: str | None = None) -> int:
             if "project" in c and "files" in c:
                 cases.append((c["project"], c["files"]))
     # the witnesses of the known findings are always replayed first
-    for f in common.load_known_findings(PROP):
+    kf = json.loads((common.VERIF / "known_findings" / f"{PROP}.json").read_text()).get("findings", [])
+    for f in kf:  # open and fixed ones alike (a fixed witness is a regression case)
         w = f.get("witness", {})
         if "project" in w:
             cases.append((w["project"], {"w.f90": "\n".join(_render_units(w["project"])) + "\n"}))
